@@ -195,10 +195,10 @@ func (t *TempoController) TagsV2(w http.ResponseWriter, r *http.Request) {
 		cRes, err = t.Service.Tags(internalCtx)
 	} else {
 		cRes, err = t.Service.TagsV2(internalCtx, q, timespan[0], timespan[1], limit)
-		if err != nil {
-			PromError(500, err.Error(), w)
-			return
-		}
+	}
+	if err != nil {
+		PromError(500, err.Error(), w)
+		return
 	}
 
 	var arrRes []string
@@ -262,10 +262,10 @@ func (t *TempoController) ValuesV2(w http.ResponseWriter, r *http.Request) {
 		cRes, err = t.Service.Values(internalCtx, tag)
 	} else {
 		cRes, err = t.Service.ValuesV2(internalCtx, tag, q, timespan[0], timespan[1], limit)
-		if err != nil {
-			PromError(500, err.Error(), w)
-			return
-		}
+	}
+	if err != nil {
+		PromError(500, err.Error(), w)
+		return
 	}
 
 	var arrRes []map[string]string
